@@ -9,8 +9,10 @@ BAND = Fr(1, 10 ** 9)
 BASE_ORD = datetime.date(1899, 12, 30).toordinal()
 
 
-def canon(v):
+def canon(v, _depth=0):
     """Type-strict, hashable, recursive canonical form of a Python value."""
+    if _depth > 150:
+        return ('deep', type(v).__name__, id(v))
     if v is None:
         return ('blank',)
     if isinstance(v, bool):
@@ -26,14 +28,14 @@ def canon(v):
     if isinstance(v, datetime.datetime):
         return ('dt', v.isoformat())
     if isinstance(v, (list, tuple)):
-        return (type(v).__name__,) + tuple(canon(x) for x in v)
+        return (type(v).__name__,) + tuple(canon(x, _depth + 1) for x in v)
     if isinstance(v, BaseException):
         try:
             return ('exc', type(v).__name__, str(v))
         except BaseException:
             return ('exc', type(v).__name__, '?')
     if isinstance(v, dict):
-        return ('dict',) + tuple(sorted((repr(k), canon(x)) for k, x in v.items()))
+        return ('dict',) + tuple(sorted((repr(k), canon(x, _depth + 1)) for k, x in v.items()))
     return ('obj', type(v).__name__, id(v))
 
 
